@@ -6,6 +6,7 @@ import (
 	"encoding/json"
 	"fmt"
 	"io"
+	"strconv"
 	"strings"
 	"sync"
 	"time"
@@ -386,9 +387,69 @@ func c03trickleChild(raw json.RawMessage, scratch string) {
 		cfg.apply()
 		c := &c03case{Index: i, Cfg: cfg, Mode: "isolated", Plan: "trickle", N: 24}
 		wk.ChildCase(i, c)
+		if i%2 == 1 {
+			c.Plan = "idle-inside-transaction"
+			runC03txpause(r, c, rng)
+			continue
+		}
 		runC03trickle(r, c, rng)
 	}
 	wk.ChildDone(r)
+}
+
+// runC03txpause: the stream goes idle in the middle of a source transaction (MULTI seen, EXEC not yet). The commands
+// received so far are forwarded commands like any other: they reach the target within bounded time although their
+// EXEC marker has not arrived.
+func runC03txpause(r resIface, c *c03case, rng *prng.R) {
+	pfx := prefixesFor(&c.Cfg)
+	if len(pfx) == 0 {
+		pfx = []string{""}
+	}
+	key := func(n int) []byte { return []byte(fmt.Sprintf("%skey%d", pfx[n%len(pfx)], n)) }
+	mk := func(name string, args ...[]byte) srcCmd { return srcCmd{Name: name, Args: args} }
+	db := rng.Pick(0, 2)
+	head := []srcCmd{mk("SELECT", []byte(strconv.Itoa(db))), mk("SET", key(1), []byte("a")), mk("MULTI"), mk("SET", key(2), []byte("b")), mk("RPUSH", key(3), []byte("x"), []byte("y"))}
+	tail := []srcCmd{mk("SET", key(4), []byte("c")), mk("EXEC"), mk("SET", key(5), []byte("d"))}
+	all := append(append([]srcCmd{}, head...), tail...)
+	streamBytesWithEnds(all)
+	srv := miniredis.NewServer()
+	conn := srv.NewConn()
+	conn.BlockReceive = true
+	pr, pw := io.Pipe()
+	e2eIDs.Lock()
+	e2eIDs.n++
+	id := e2eIDs.n
+	e2eIDs.Unlock()
+	node := &slot.SyncNode{Id: id, Source: "10.9.8.5:6379", Target: []string{"127.0.0.1:1"}, SlotLeftBoundary: -1, SlotRightBoundary: -1}
+	ds := dbSync.NewDbSyncer(node, 9320, semaphore.NewWeighted(1))
+	ds.VerifRunIncr(bufio.NewReaderSize(pr, 1<<16), conn, 0, e2eRunID, 1000, c.Cfg.SenderCount, 65535)
+	applied := func() []fwdCmd {
+		srv.Mu.Lock()
+		lg := append([]miniredis.Logged{}, srv.Log...)
+		srv.Mu.Unlock()
+		got, _, _ := appliedCommands(lg, node.Source, conn.Sess.ID)
+		g, _ := stripPings(got)
+		return g
+	}
+	wantHead, _ := stripPings(expectedForward(all[:len(head)], &c.Cfg, 0))
+	wantAll, _ := stripPings(expectedForward(all, &c.Cfg, 0))
+	t0 := time.Now()
+	pw.Write(streamBytes(all[:len(head)]))
+	inTime := waitUntil(2500*time.Millisecond, func() bool { return len(applied()) >= len(wantHead) })
+	lat := time.Since(t0)
+	gotHead := len(applied())
+	time.Sleep(300 * time.Millisecond)
+	pw.Write(streamBytes(all[len(head):]))
+	waitUntil(5*time.Second, func() bool { return len(applied()) >= len(wantAll) })
+	r.Case(fmt.Sprintf("txpause|%s|sc%d|resume%v", cfgClass(&c.Cfg), c.Cfg.SenderCount, c.Cfg.Resume))
+	r.Count("streams_idle_inside_a_transaction", 1)
+	if len(wantHead) > 0 && !inTime {
+		r.Violation(fmt.Sprintf("C03|mode=isolated|outcome=not-flushed-while-a-source-transaction-is-open|resume=%v", c.Cfg.Resume), fmt.Sprintf("the stream went idle after MULTI and %d forwarded commands; %.1fs later the target had received %d of them (the EXEC marker had not been sent yet; flush period 0.5 s, sender.count %d)", len(wantHead), lat.Seconds(), gotHead, c.Cfg.SenderCount), c)
+		return
+	}
+	if g := applied(); len(g) != len(wantAll) {
+		r.Violation(fmt.Sprintf("C03|mode=isolated|outcome=command-lost|config=txpause|resume=%v", c.Cfg.Resume), fmt.Sprintf("after the rest of the transaction arrived the target has %d of %d commands", len(g), len(wantAll)), c)
+	}
 }
 
 // runC03trickle: "every forwarded command reaches the target within bounded time" judged per command while the
@@ -517,7 +578,7 @@ func c03(c *wk.Ctx) {
 	}
 	ncfg := c.N(20, 60)
 	per := c.N(40, 150)
-	ntr := c.N(10, 120)
+	ntr := c.N(16, 160)
 	wk.Parallel(ncfg+ntr, 16, func(i int) {
 		if i >= ncfg {
 			k := 9000000 + (i - ncfg)
@@ -529,6 +590,7 @@ func c03(c *wk.Ctx) {
 	r.Floor("streams_e2e", 100)
 	r.Floor("streams_isolated", 200)
 	r.Floor("trickle_commands_timed", 40)
+	r.Floor("streams_idle_inside_a_transaction", 6)
 	r.Floor("flush_batches_observed", 500)
 	r.Floor("forwarded_commands", 5000)
 	r.Assume("reference filter pipeline (lib/reffilter + expectedForward): db filter by SELECT tracking, script commands under filter.lua, sentinel hello, opinfo, MULTI/EXEC markers dropped, key filter per C13; PINGs are stripped from both sides before comparing (the statement does not place them); in the incremental path key decisions exist only for commands in the tool's table")
